@@ -1160,6 +1160,19 @@ def main(argv):
     if res.broken:
         nl *= 3
     laws = [gen_law(rng) for _ in range(nl)]
+    # a built-in passed by name as the callback behaves like the lambda that calls it (unary built-ins only: a
+    # built-in that can take a second argument is also handed the index)
+    ETA_LISTS = {"strs": '["ccc", "a", "dddd", "bb", "a"]', "nums": "[3, -1, -4, 1, -5, 9, 2.5]",
+                 "mixed": '[1, "a", null, true, [2], {k: 1}, "b", 0]'}
+    ETA = [("sort_by", "strs", "len"), ("sort_by", "nums", "abs"), ("sort_by", "nums", "floor"), ("sort_by", "mixed", "typeof"),
+           ("group_by", "mixed", "typeof"), ("count_by", "mixed", "typeof"), ("group_by", "strs", "uppercase"),
+           ("map", "nums", "abs"), ("map", "strs", "len"), ("map", "mixed", "typeof"), ("filter", "nums", "to_bool"),
+           ("every", "nums", "to_bool"), ("some", "nums", "to_bool"), ("map", "mixed", "to_string")]
+    for hof, lk, bi in ETA:
+        def pred(res_, hof=hof, bi=bi):
+            return None if res_[1] == res_[2] else "%s with the built-in %s by name differs from the lambda calling it" % (hof, bi)
+        laws.append(Law("a built-in callback passed by name = the lambda that calls it",
+                        "l = %s\n%s(l, %s)\n%s(l, q9 => %s(q9))" % (ETA_LISTS[lk], hof, bi, hof, bi), pred))
     louts = c.harness_lines_resilient(h, "eval", [c.hexs(l.prog) for l in laws])
     lawhist = {}
     law_known = {}
